@@ -68,6 +68,10 @@ def setup_tree(root: Path):
     (root / "f5").write_text(f"#include 'x5'\n#include '{root}/other5'\nm5  1;\n")
     (root / "other5").write_text("#include 'x5'\no5  2;\n")
     (root / "x5").write_text("x5  3;\n")
+    # a diamond of relative includes: f6 includes x6 and y6, x6 includes y6 as well (one directive text, one folder)
+    (root / "f6").write_text("#include 'x6'\n#include 'y6'\nm6  1;\n")
+    (root / "x6").write_text("#include 'y6'\nx6  2;\n")
+    (root / "y6").write_text("y6  3; // comment in y6\n")
 
 
 def canon(d):
@@ -106,6 +110,11 @@ def do_op(root: Path, op: str, spelling: str, out_tag: str):
     if op == "parse":
         dictIO.DictParser.parse(P("f1"))
         return ("bytes", (root / "parsed.f1").read_bytes())
+    if op == "read6":
+        return ("data", canon(dictIO.DictReader.read(P("f6"))))
+    if op == "parse6":
+        dictIO.DictParser.parse(P("f6"))
+        return ("bytes", (root / "parsed.f6").read_bytes())
     if op == "read5":
         return ("data", canon(dictIO.DictReader.read(P("f5"))))
     if op == "read4":
@@ -150,7 +159,7 @@ def do_op(root: Path, op: str, spelling: str, out_tag: str):
 
 
 PREFIX_OPS = ["read1", "read2", "read3", "write", "parse", "dumpload", "reset", "read1o"]
-OBSERVED = ["read1", "read1o", "read1n", "read2", "read3", "read4", "read5", "write", "writeo", "parse", "parseo", "parsej", "parse4", "dumpload", "writeback", "loaddump"]
+OBSERVED = ["read1", "read1o", "read1n", "read2", "read3", "read4", "read5", "read6", "parse6", "write", "writeo", "parse", "parseo", "parsej", "parse4", "dumpload", "writeback", "loaddump"]
 CWDS = [".", "sub", "sub/deep", "other"]
 # every offset of the wrap inside one read of f1 (about 14 placeholders): each placeholder gets id 0 under one of them
 COUNTERS = [-1, 5] + list(range(999984, 1000000))
